@@ -35,7 +35,7 @@ GOENV = {
 
 # per-property configuration: package dir, shards (quick, thorough), per-shard wall limits (s),
 # race build, address-space limit (GiB, 0 = none)
-DEFAULT = dict(shards=(8, 16), limit=(240, 2400), race=False, as_gib=16, native_fuzz=False)
+DEFAULT = dict(shards=(8, 16), limit=(420, 2400), race=False, as_gib=16, native_fuzz=False)
 PROPS = {
     "C01": dict(pkg="c01", native_fuzz=("FuzzParse", 120)), "C02": dict(pkg="c02", cli="plain"), "C03": dict(pkg="c03"), "C04": dict(pkg="c04", native_fuzz=("FuzzTokens", 90)),
     "C05": dict(pkg="c05"), "C06": dict(pkg="c06", native_fuzz=("FuzzErrors", 75)), "C07": dict(pkg="c07", native_fuzz=("FuzzRecovered", 75)), "C08": dict(pkg="c08"),
